@@ -801,7 +801,10 @@ MANIFEST = {
                   'the forest numbered in preorder from max_id+1 (fresh, pairwise distinct ids, max_id updated, nothing else '
                   'changed, no panic below 2^32, fuel = height); the title bytes decode back for every Unicode string; after the '
                   'README attach step get_toc returns exactly the preorder (titles, level = depth+1, page numbers, same order, no '
-                  'error entry) for distinct titles, page targets, a catalog without name trees, within one unit of fuel per '
+                  'error entry) for distinct titles, page targets and ANY catalog -- get_toc is modelled with its call of get_named_destinations '
+                  '(C13\'s model, imported): a Dests / Names tree of whatever content does not influence the rows, and get_toc answers Err '
+                  'exactly when get_named_destinations refuses the tree (malformed or deeper than 257 levels: outside the domain of the '
+                  'read-back clause, proved in both directions and replayed) --, within one unit of fuel per '
                   'bookmark and within the reference budget; and the same table of contents and page list after a save/load '
                   'round trip, as a composition lemma over the C01 statement (objects equal up to number normalisation), whose premises are '
                   'discharged with C01_full (C17_reads_back_after_save_load_table / _after_save_load / _forest_after_save_load): the document '
@@ -818,7 +821,8 @@ MANIFEST = {
                   'shape anchors of get_outlines); hand-written models tied by correspondence (observable: bookmark table, all '
                   'objects after build_outline + attach, get_toc rows and error count, before and after reload); Rust std '
                   'is_ascii / encode_utf16 / from_utf16_lossy / from_utf8_lossy as modelled in Model/Outline.v and Model/Toc.v; '
-                  'get_named_destinations not modelled (catalogs with Dests/Names are outside the theorem); stack exhaustion of the '
+                  'get_named_destinations = C13\'s Model/Query.v (tied there and, through get_toc, here); a catalog whose name tree '
+                  'get_named_destinations refuses is outside the read-back theorem (get_toc = Err, proved); stack exhaustion of the '
                   'native recursions is outside the model; extraction/OCaml driver; Rust harness. No axioms; the reload theorem '
                   'takes the C01 round-trip statement as explicit premises.',
     'technique': 'Coq proof by refinement to a numbered forest (loop invariant of outline_child, invariant of add_bookmark, '
